@@ -41,14 +41,37 @@ class FakePoller(object):
         self.subs.pop(descr, None)
 
 
+class SocketShim(object):
+    """Stands in for the `socket` module inside tcp_connection: socket.socket(...) hands out the
+    FakeSock the harness prepared (TcpConnection.connect() creates its socket itself); everything
+    else (error, errno, inet_aton, constants) is the real module."""
+
+    def __init__(self, real):
+        self._real = real
+        self.pending = None
+
+    def socket(self, *a, **k):
+        s = self.pending
+        self.pending = None
+        if s is None:
+            raise RuntimeError('harness: connect() without a prepared FakeSock')
+        return s
+
+    def __getattr__(self, name):
+        return getattr(self._real, name)
+
+
 class FakeSock(object):
-    def __init__(self, fd):
+    def __init__(self, fd, sink=None):
         self.fd = fd
         self.sscript = []
         self.rscript = []
         self.so = []
-        self.accepted = bytearray()
+        self.accepted = sink if sink is not None else bytearray()   # shared by all sockets of one Conn
         self.closed = False
+
+    def connect(self, addr):
+        raise socket.error(errno.EINPROGRESS, 'in progress')
 
     def fileno(self):
         return self.fd
@@ -138,16 +161,29 @@ class PickleShim(object):
 
 
 class Conn(object):
-    """One real TcpConnection with its fakes, plus the log of model events/observations."""
+    """One real TcpConnection with its fakes, plus the log of model events/observations.
 
-    def __init__(self, T, clock, oracle, fd, timeout):
+    reconnect=True installs an onDisconnected callback that calls connect() at once, like
+    TCPTransport._onDisconnected -> _connectIfNecessarySingle does; every connect() (re-entrant
+    or by the `connect` op) gets a fresh FakeSock and starts a new *generation*; `log` is the
+    chronological record ('connect', g) / ('connected', g) / ('msg', g, id) / ('disc', g) with g
+    the generation current at that moment."""
+
+    def __init__(self, T, clock, oracle, fd, timeout, reconnect=False):
         self.T = T
-        self.sock = FakeSock(fd)
+        self.accepted = bytearray()     # everything any socket of this connection accepted
+        self.fd0 = fd
+        self.gen = 1
+        self.sock = FakeSock(fd, self.accepted)
         self.poller = FakePoller()
         self.delivered = []
         self.disc = 0
+        self.conn_calls = 0
         self.oracle = oracle
-        self.c = T.TcpConnection(self.poller, onMessageReceived=self._on_msg, onDisconnected=self._on_disc,
+        self.reconnect = reconnect
+        self.log = [('connect', 1), ('connected', 1)]
+        self.c = T.TcpConnection(self.poller, onMessageReceived=self._on_msg, onConnected=self._on_conn,
+                                 onDisconnected=self._on_disc,
                                  socket=self.sock, timeout=timeout, sendBufferSize=64, recvBufferSize=64)
         self.clock = clock
         self.events = []      # model events (python tuples)
@@ -159,33 +195,53 @@ class Conn(object):
         self.disconnected_at = None
 
     def _on_msg(self, m):
-        self.delivered.append(self.oracle.id_of(m))
+        i = self.oracle.id_of(m)
+        self.delivered.append(i)
+        self.log.append(('msg', self.gen, i))
+
+    def _on_conn(self):
+        self.conn_calls += 1
+        self.log.append(('connected', self.gen))
 
     def _on_disc(self):
         self.disc += 1
+        self.log.append(('disc', self.gen))
+        if self.reconnect:
+            self._do_connect()
+
+    def _do_connect(self):
+        self.gen += 1
+        s = FakeSock(self.fd0 + 100 * self.gen, self.accepted)
+        self.T.socket.pending = s
+        ok = self.c.connect('127.0.0.1', 4321)
+        if not ok:
+            raise RuntimeError('harness: connect() returned False')
+        self.sock = s
+        self.log.append(('connect', self.gen))
 
     def _observe(self, acc_before):
         c = self.c
         st = 2 if c.state == self.T.CONNECTION_STATE.CONNECTED else (0 if c.state == self.T.CONNECTION_STATE.DISCONNECTED else 1)
-        acc = bytes(self.sock.accepted[acc_before:])
-        ob = [st, len(c._TcpConnection__readBuffer), len(c._TcpConnection__writeBuffer), self.disc, 0,
+        acc = bytes(self.accepted[acc_before:])
+        ob = [st, len(c._TcpConnection__readBuffer), len(c._TcpConnection__writeBuffer), self.disc, self.conn_calls, 0,
               len(acc)] + list(acc) + [len(self.delivered)] + list(self.delivered)
         self.all_delivered += self.delivered
         if st == 0 and self.disconnected_at is None:
             self.disconnected_at = len(self.events)
         self.delivered = []
         self.disc = 0
+        self.conn_calls = 0
         return ob
 
     def _guard(self, fn):
-        acc_before = len(self.sock.accepted)
+        acc_before = len(self.accepted)
         try:
             fn()
             ob = self._observe(acc_before)
         except Exception as e:      # an exception escaping the event loop is itself a C13 violation
             self.raised.append((len(self.events) - 1, repr(e)))
             ob = self._observe(acc_before)
-            ob[4] = 7               # can never equal the model's miss flag (0/1)
+            ob[5] = 7               # can never equal the model's miss flag (0/1)
         self.expected.append(ob)
 
     def send(self, msg, script):
@@ -210,8 +266,14 @@ class Conn(object):
         self.sock.so = []
 
     def disconnect(self):
-        self.events.append(('disconnect',))
+        self.events.append(('disconnect', int(self.clock.now)))
         self._guard(lambda: self.c.disconnect())
+
+    def connect(self):
+        """conn.connect(host, port) called from outside (first connect of an outgoing connection,
+        or TCPTransport's periodic retry)."""
+        self.events.append(('connect', int(self.clock.now)))
+        self._guard(self._do_connect)
 
 
 def install(T, clock):
@@ -219,6 +281,7 @@ def install(T, clock):
     T.monotonicTime = clock
     T.zlib = oracle
     T.pickle = PickleShim(T.pickle, oracle)
+    T.socket = SocketShim(socket)       # only this module's view of `socket`; undone by uninstall
     return oracle
 
 
@@ -256,7 +319,9 @@ def v_event(e):
         return '(EPoll (%d)%%Z %s %s %s %s [%s] [%s])' % (
             e[1], v_bool(e[2]), v_bool(e[3]), v_bool(e[4]), v_bool(e[5]),
             '; '.join(v_sres(r) for r in e[6]), '; '.join(v_rres(r) for r in e[7]))
-    return 'EDisconnect'
+    if e[0] == 'connect':
+        return '(EConnect (%d)%%Z)' % e[1]
+    return '(EDisconnect (%d)%%Z)' % e[1]
 
 
 def v_case(name, conn, table):
@@ -267,4 +332,5 @@ def v_case(name, conn, table):
     return ('Definition tbl_%s : list (bytes * option N) := %s.\n'
             'Definition ev_%s : list event := %s.\n'
             'Definition ex_%s : list (list N) := %s.\n' % (name, tbl, name, evs, name, exp),
-            '(check_case tbl_%s (%d)%%Z (%d)%%Z ev_%s ex_%s)' % (name, int(conn.t_init), int(conn.timeout), name, name))
+            '(check_case tbl_%s (%d)%%Z (%d)%%Z %s ev_%s ex_%s)' % (name, int(conn.t_init), int(conn.timeout),
+                                                                       v_bool(conn.reconnect), name, name))
